@@ -220,7 +220,9 @@ def check_ell(run, A):
             if not all(isinstance(x, int) for x in vals):
                 continue
             n += 1
-            bad = [x for x in vals if x >= 0]
+            from ..walk import named_front_axes
+            named = named_front_axes(opnd) if opnd is not None else 0
+            bad = [x for x in vals if x >= named]          # (an axis in front that the function itself built means the same for every input rank)
             if bad and (fn.qual, name) in AXIS_EXCEPTIONS:
                 run.ok('R-ELL', f'{short}: {name}(axis={v}) [listed exception]', fn.loc(t.node), AXIS_EXCEPTIONS[(fn.qual, name)])
                 continue
@@ -251,8 +253,11 @@ def check_ell(run, A):
     if not cps:
         raise AnalysisError('phase_correction: cumulative product / sum over the frequency axis not found')
     acc_ax = const_val(call_arg(cps[0], 1, 'axis'))
-    run.check(acc_ax == -2, 'R-ELL', 'phase_correction: phase is accumulated along the frequency axis', fn.loc(cps[0].node), 'axis=-2',
-              f'accumulation over axis {acc_ax!r}; the documented layout is (..., bins, sensors), the frequency axis is -2', construct=f'R-ELL::{q}::cumprod-axis')
+    if acc_ax is NOVAL:
+        run.unresolved('R-ELL', 'phase_correction: phase is accumulated along the frequency axis', fn.loc(cps[0].node), 'the axis of the accumulation is computed, not a literal')
+    else:
+        run.check(acc_ax == -2, 'R-ELL', 'phase_correction: phase is accumulated along the frequency axis', fn.loc(cps[0].node), 'axis=-2',
+                  f'accumulation over axis {acc_ax!r}; the documented layout is (..., bins, sensors), the frequency axis is -2', construct=f'R-ELL::{q}::cumprod-axis')
     # FORM: bin f is rotated by exp(+j angle(w_f^H w_{f-1})) (accumulated over f), w_f^H w_{f-1} = sum over the SENSOR axis of conj(w[..., 1:, :]) * w[..., :-1, :]
     def bin_slice(t):
         t = strip_views(t)
@@ -262,9 +267,11 @@ def check_ell(run, A):
         if len(items) < 2 or not is_full_slice(items[-1]) or items[-2].op != 'slice':
             return None
         lo, hi, st = (const_val(x) for x in items[-2].args)
+        if NOVAL in (lo, hi, st):
+            return 'computed'          # a bound that is an expression (the axis length, max(bins - 1, 0)): not read here
         if st is not None:
             return None
-        return 'f' if (lo == 1 and hi is None) else 'f-1' if (lo is None and hi == -1) else None
+        return 'f' if (lo == 1 and hi is None) else 'f-1' if (lo in (None, 0) and hi == -1) else None
     angles = [e.term for e in g.events if e.kind == 'call' and is_call_to(e.term, 'numpy.angle')]
     okf, why = False, 'np.angle(...) of the inter-bin inner product not found'
     if len(angles) == 1:
@@ -296,8 +303,12 @@ def check_ell(run, A):
                                 sign = cv.imag * (-1 if neg else 1)
                 why = f'conjugate on bin {conj_on}, rotation exp({sign}j * angle): the pair must be (f, +1) or (f-1, -1)'
                 okf = sign is not None and ((conj_on == 'f' and sign == 1) or (conj_on == 'f-1' and sign == -1))
-    run.check(okf, 'FORM', 'phase_correction: bin f is rotated by the phase of w_f^H w_{f-1} (sum over sensors)', fn.loc(angles[0].node if angles else None), '', why,
-              construct=f'FORM::{q}::inter-bin-phase')
+    if not okf and 'computed' in why:
+        run.unresolved('FORM', 'phase_correction: bin f is rotated by the phase of w_f^H w_{f-1} (sum over sensors)', fn.loc(angles[0].node if angles else None),
+                       'the bin slices are written with computed bounds: ' + why)
+    else:
+        run.check(okf, 'FORM', 'phase_correction: bin f is rotated by the phase of w_f^H w_{f-1} (sum over sensors)', fn.loc(angles[0].node if angles else None), '', why,
+                  construct=f'FORM::{q}::inter-bin-phase')
     okacc = any(call_parts(t)[0] in ('numpy.cumprod', 'method:cumprod') and any(is_call_to(y, 'numpy.exp') for y in walk_terms(call_arg(t, 0), into_mu=False)) for t in cps) or \
         any(call_parts(t)[0] in ('numpy.cumsum', 'method:cumsum') and not any(is_call_to(y, 'numpy.exp') for y in walk_terms(call_arg(t, 0), into_mu=False)) for t in cps)
     run.check(okacc, 'FORM', 'phase_correction: rotations accumulate as a product of phasors (or a sum of angles)', fn.loc(cps[0].node), '',
